@@ -34,7 +34,7 @@ CLAIMED["C17"] = dict(technique=_SRV_T + "; permit typestate by dominance", note
 _R2_T = "abort-check discovery over rustc MIR: message components by structure-preserving value flow from each receive label, branch conditions classified by ingredients (received bit/MAC, Delta, key, open_commitment, clmul, literals), fail-closed edge analysis, dominance of uses, loop-bypass analysis; obligation table per label"
 _R2_N = "Trusted: rustc MIR (normalised: new local helpers spliced into their callers, std adaptor models, variant threading - DESIGN.md 12.2); component = value reached from a receive result through structure-preserving edges inside the receiving function; abort check = one branch edge cannot reach Ok(..). Not decided: cryptographic sufficiency of the checks, forgery probability, weakened-but-still-keyed comparisons."
 CLAIMED["C02"] = dict(technique=_R2_T, note=_R2_N, ref="DESIGN.md §3 R2, §4 C02, Appendix B",
-    text="For every protocol message that can influence an output bit, on every CFG path (= for every adversarial message, index, party): the demanded fail-closed checks exist with the right ingredients (R2.1), received bits are used only behind their MAC check (R2.3), absent shares are errors (R2.4), MAC-check loops cannot be shortened by peer-sized vectors (R2.5), no iteration bypasses a check except own-party skips (R2.7), equivocation-sensitive labels use verified broadcast (R2.6), every comparison of a compound abort condition rejects on its own (R2.10), the conflicting-mask test inspects the own masked inputs (R2.11), no equality test is applied to a fold over a received vector (R2.8), the AEAD row key binds all GarblingKey fields (R2.key), symmetric commit/reveal folds bind the committer id (R3.bind-id). Structural necessary conditions of integrity.")
+    text="For every protocol message that can influence an output bit, on every CFG path (= for every adversarial message, index, party): the demanded fail-closed checks exist with the right ingredients (R2.1), received bits are used only behind their MAC check (R2.3), absent shares are errors (R2.4), MAC-check loops cannot be shortened by peer-sized vectors (R2.5), no iteration bypasses a check except own-party skips (R2.7), equivocation-sensitive labels use verified broadcast (R2.6), every comparison of a compound abort condition rejects on its own (R2.10), a check written with any / all rejects in the direction its predicate demands (R2.12), the conflicting-mask test inspects the own masked inputs (R2.11), no equality test is applied to a fold over a received vector (R2.8), the AEAD row key binds all GarblingKey fields (R2.key), symmetric commit/reveal folds bind the committer id (R3.bind-id). Structural necessary conditions of integrity.")
 CLAIMED["C03"] = dict(technique=_R2_T + "; decrypt result propagation", note=_R2_N, ref="DESIGN.md §4 C03",
     text="(The echo round behind the verified broadcast is checked here as well: comparison fail-closed, all (echoing party, sender) pairs.) Per authenticated field of each online-phase message the consuming party has a fail-closed abort check (exists, right ingredients, dominates the use, every element and sender, absent => Err), masked inputs use the verified broadcast with conflict rejection, and AEAD failure of garble::decrypt is returned as Err.")
 CLAIMED["C04"] = dict(technique=_R2_T + "; must-precede across awaits by Ready-edge dominance; enumeration of shared-generator draws/clones", note=_R2_N + " Known findings (5, all challenge-generator timing/cloning) recorded in known_findings.json.", ref="DESIGN.md §3 R2/R3/R4, §4 C04",
